@@ -77,10 +77,13 @@ def _build_harness_locked(cmd, tags, race):
     if os.path.exists(sumfile):
         sums.update(l for l in open(sumfile).read().splitlines() if l.strip())
     _write_if_changed(sumfile, "\n".join(sorted(sums)) + "\n")
-    out = os.path.join(BUILD, cmd + ("-race" if race else ""))
+    cover = bool(os.environ.get("VERIF_COVER"))           # maintainer tool bin/coverage: statement coverage of /repo by a check's inputs
+    out = os.path.join(BUILD, cmd + ("-race" if race else "") + ("-cover" if cover else ""))
     args = ["go", "build", "-modfile=" + modfile, "-tags", tags, "-o", out]
     if race:
         args.insert(2, "-race")
+    if cover:
+        args[2:2] = ["-cover", "-coverpkg=github.com/alibaba/sentinel-golang/...,verifharness/cmd/" + cmd]
     args.append("./cmd/" + cmd)
     rc, so, se = sh(args, cwd=GO, env=goenv(), timeout=900)
     if rc != 0:
@@ -186,6 +189,8 @@ def run_impl(binary, prop, ops_text, timeout=600, extra_env=None, args=()):
     env.setdefault("GOMEMLIMIT", "4GiB")
     if extra_env:
         env.update(extra_env)
+    if os.environ.get("VERIF_COVER"):
+        env["GOCOVERDIR"] = os.environ["VERIF_COVER"]
     try:
         p = subprocess.run([binary, prop] + list(args), input=ops_text, capture_output=True, text=True, timeout=timeout, env=env)
     except subprocess.TimeoutExpired:
